@@ -772,6 +772,57 @@ func c08(r *Report) {
 				}
 			}
 		}
+		// ... and written completely: either one Write whose error is returned (a Writer that
+		// writes short must return an error), or a loop that goes on while octets remain,
+		// writing what is left and counting down by what was written
+		{
+			var wr *ssa.Call
+			for _, c := range calls(fp) {
+				if cc, isC := c.(*ssa.Call); isC && cc.Call.IsInvoke() && cc.Call.Method.Name() == "Write" {
+					wr = cc
+				}
+			}
+			okW := false
+			why := "no Write of the preface to the server"
+			if wr != nil && !inLoop(wr.Block()) {
+				okW, why = true, ""
+			} else if wr != nil {
+				n := resultOf(wr, 0)
+				advanced, counted, goesOn := false, false, false
+				for _, in := range instrs(fp) {
+					switch x := in.(type) {
+					case *ssa.Slice:
+						if x.Low != nil && n != nil && unwrapConv(x.Low) == n && x.High == nil && inLoop(x.Block()) {
+							for _, l := range resolveAll(wr.Call.Args[0]) {
+								_ = l
+							}
+							advanced = true
+						}
+					case *ssa.BinOp:
+						if x.Op == token.SUB && n != nil && unwrapConv(x.Y) == n && inLoop(x.Block()) {
+							counted = true
+						}
+						if _, isIf := x.Block().Instrs[len(x.Block().Instrs)-1].(*ssa.If); isIf && inLoop(x.Block()) {
+							if k, isK := constInt(x.Y); isK {
+								if _, isPhi := x.X.(*ssa.Phi); isPhi && cmpHolds(x.Op, 1, k) && cmpHolds(x.Op, 24, k) && !cmpHolds(x.Op, 0, k) {
+									goesOn = true
+								}
+							}
+						}
+					}
+				}
+				// the slice written is the advanced one (a phi that includes the re-slice)
+				writesRest := false
+				for v := range w.backSlice(wr.Call.Args[0], flowOpt{}) {
+					if sl, isSl := v.(*ssa.Slice); isSl && sl.Low != nil && n != nil && unwrapConv(sl.Low) == n {
+						writesRest = true
+					}
+				}
+				okW = advanced && counted && goesOn && writesRest
+				why = fmt.Sprintf("advanced=%v counted=%v continues-while-octets-remain=%v writes-the-rest=%v", advanced, counted, goesOn, writesRest)
+			}
+			r.Decide("flow", "M/h2.forwardPreface: the whole preface is written, also across short writes", okW, "a single checked Write, or a loop that re-slices by n, counts down by n and continues while anything remains", "the write loop of the preface stops early or does not advance ("+why+"): after a short write the server receives a damaged connection preface", fp.Pos())
+		}
 		r.Decide("flow", "M/h2.forwardPreface: preface filled by io.ReadFull before the comparison", ok, "io.ReadFull into the compared buffer", "the compared buffer is not guaranteed to be completely read", fp.Pos())
 	})
 }
